@@ -44,7 +44,7 @@ def pricing_obligations(ctx, n1, n2):
         n2.site("commission = floor(rate * gross): %s" % pz.k.show())
     else:
         n2.fail("%s:%s:commission" % (n2.id, f.path), f.path, f.span, "commission is %s, expected floor(rate*gross) = %s" % (pz.k.show(), want_k.show()))
-    ctx.extra.setdefault("terms", {})["pricing"] = {"n": pz.n.show(), "spread": pz.s.show(), "commission": pz.k.show(),
+    ctx.extra.setdefault("terms", {})["pricing"] = {"n": pz.n.show(), "spread": pz.s.show() if pz.s is not None else "?", "commission": pz.k.show(),
                                                     "floors": ["%s = floor(%s)  <- %s" % (a, b.show(), c) for a, b, c in T.floors.items]}
     return pr, f, bb, pz
 
